@@ -90,6 +90,10 @@ def exec_hist(c):
                     nest = objs[act["o"] - 1][sl]
                     objs.append(nest)
                     res = ["obj", len(nest)]
+                elif a == "popof":
+                    p2 = Population(objs[act["o"] - 1])
+                    objs.append(p2)
+                    res = ["obj", len(p2)]
                 elif a == "iter":
                     res = ["trees", [ident(t.source) for t in objs[act["o"] - 1]]]
                 elif a == "map":
@@ -193,6 +197,9 @@ def free_histories(ctx, count):
                     choices += ["map"]
                 if rng.random() < 0.3:
                     choices += ["ptransform"]
+            nests = [i + 1 for i, k in enumerate(kinds) if k == "nest"]
+            if nests:
+                choices += ["popof"] * 2
             if zips:
                 choices += ["zipindex"] * 2 + ["topop"] * 2
             if len(used) + 2 <= nroot and rng.random() < 0.3:
@@ -204,6 +211,9 @@ def free_histories(ctx, count):
             elif a == "index":
                 o = rng.choice(conts); n = lens[o - 1]
                 hist.append({"a": a, "o": o, "key": rng.randint(-n - 1, n)})
+            elif a == "popof":
+                o = rng.choice(nests)
+                hist.append({"a": a, "o": o}); alloc("pop", lens[o - 1])
             elif a in ("iter", "len"):
                 o = rng.choice(conts if a == "iter" else conts + zips)
                 hist.append({"a": a, "o": o})
@@ -220,13 +230,15 @@ def free_histories(ctx, count):
                 hist.append({"a": a, "pops": ps}); alloc("zip", min(lens[p - 1] for p in ps))
                 zipmem[len(kinds)] = ps
             elif a == "zip":
-                rs = rng.sample([x for x in range(1, nroot + 1) if x not in used], 2); used.update(rs)
-                common = [n_ for n_ in dirs[rs[0] - 1] if n_ in dirs[rs[1] - 1]]
+                avail = [x for x in range(1, nroot + 1) if x not in used]
+                rs = rng.sample(avail, 3 if len(avail) >= 3 and rng.random() < 0.6 else 2); used.update(rs)
+                common = [n_ for n_ in dirs[rs[0] - 1] if all(n_ in dirs[r_ - 1] for r_ in rs[1:])]
                 hist.append({"a": a, "roots": rs, "order": []})
+                first = len(kinds)
                 for _r in rs:
                     alloc("lazy", len(common)); alloc("pop", len(common))
                 alloc("zip", len(common))
-                zipmem[len(kinds)] = [len(kinds) - 3, len(kinds) - 1]
+                zipmem[len(kinds)] = [first + 2 * (q_ + 1) for q_ in range(len(rs))]
             elif a == "zipindex":
                 o = rng.choice(zips); n = lens[o - 1]
                 hist.append({"a": a, "o": o, "key": rng.randint(-n - 1, n)})
@@ -260,6 +272,25 @@ def chain_histories(ctx, q):
     return out
 
 
+def view_histories(ctx, q):
+    """a population over a slice view, sliced again with every (start, stop, step): slicing composes (the step included)"""
+    dirs = [["a", "b", "c", "d", "e", "f", "g"]]
+    out = []
+    firsts = [(1, 6, 1), (99, 99, 2), (5, 0, -1), (2, 99, 1)]
+    seconds = [(lo, hi, st) for lo in (99, 0, 1, -2) for hi in (99, 3, -1) for st in (1, 2, -1)]
+    if q:
+        seconds = seconds[::2]
+    for f in firsts:
+        for g in seconds:
+            hist = [{"a": "from_swc", "r": 1, "order": []},                                   # objs 1 (lazy), 2 (pop)
+                    {"a": "slice", "o": 2, "lo": f[0], "hi": f[1], "st": f[2]},                # 3 (nest)
+                    {"a": "popof", "o": 3},                                                    # 4 (pop over the view)
+                    {"a": "slice", "o": 4, "lo": g[0], "hi": g[1], "st": g[2]},                # 5 (nest of the view)
+                    {"a": "len", "o": 5}, {"a": "iter", "o": 5}, {"a": "index", "o": 5, "key": -1}, {"a": "iter", "o": 4}]
+            out.append({"dirs": dirs, "junk": {}, "hist": hist})
+    return out
+
+
 def run(ctx):
     q = ctx.tier == "quick"
     ctx.mc("MC_Population", "MC_Population.%s.cfg" % ctx.tier, deadlock=False, coverage=False, timeout=3000)
@@ -280,6 +311,9 @@ def run(ctx):
         ch = chain_histories(ctx, q)
         p = ctx.write_cases("chain-index-order", ch)
         ctx.run_cases("chain-index-order", ch, p, exec_hist, "Trace_Population", keyfn, nontrivial)
+        vh = view_histories(ctx, q)
+        p = ctx.write_cases("slices-of-views", vh)
+        ctx.run_cases("slices-of-views", vh, p, exec_hist, "Trace_Population", keyfn, nontrivial)
         fr = free_histories(ctx, 150 if q else 3000)
         p = ctx.write_cases("free", fr)
         ctx.run_cases("free", fr, p, exec_hist, "Trace_Population", keyfn, nontrivial)
